@@ -88,7 +88,7 @@ def run(repo, rep):
     # The structural rules below read facts off the dispatch loops.  They apply to a loop only while it is in the recognised form (one
     # closed chain of kind tests, every push a visible triple); a loop that was restructured - handlers moved into helpers, a dispatch
     # table, a shared implementation - is decided by the interpreted layout model (C04.n) alone, which does not depend on the form.
-    all_exact = all(m.exact for m in ms.values())
+    all_exact = all(m.exact and not any(b.opaque for b in m.branches) for m in ms.values())
     rep.analysed['machines_shape'] = {k: ('recognised' if m.exact else 'not recognised (%s): decided by the layout model only' % m.reason)
                                       for k, m in ms.items()}
     from engine.switch import NullMachine
